@@ -625,6 +625,139 @@ pub fn handle(req: &J) -> J {
                 stats.histories += 1;
             }
         }
+        ("combine", _) => {
+            // the payload monoids themselves (HashSet, Option<HashSet>, Option<Option<HashSet>>): identity, the
+            // Option table, associativity, and a forest carrying an Option payload against a naive model
+            use storage_layout_extractor::data::combine::Combine;
+            type S = HashSet<u32>;
+            let sets: Vec<S> = vec![S::new(), [1].into(), [2].into(), [1, 2].into(), [3, 9].into()];
+            let mut opts: Vec<Option<S>> = vec![None];
+            opts.extend(sets.iter().cloned().map(Some));
+            let model_opt = |a: &Option<S>, b: &Option<S>| -> Option<S> {
+                match (a, b) {
+                    (None, None) => None,
+                    (Some(x), None) | (None, Some(x)) => Some(x.clone()),
+                    (Some(x), Some(y)) => Some(x.union(y).copied().collect()),
+                }
+            };
+            let mut note = |sig: &str, what: String, stats: &mut Stats| {
+                let e = stats.violations.entry(sig.to_string()).or_insert_with(|| (0, json!({"what": what})));
+                e.0 += 1;
+            };
+            for a in &sets {
+                for b in &sets {
+                    stats.ops_checked += 1;
+                    let want: S = a.union(b).copied().collect();
+                    if a.clone().combine(b.clone()) != want {
+                        note("combine:hashset:union", format!("{a:?} + {b:?}"), &mut stats);
+                    }
+                }
+                if a.clone().combine(S::identity()) != *a || S::identity().combine(a.clone()) != *a {
+                    note("combine:hashset:identity", format!("{a:?}"), &mut stats);
+                }
+            }
+            for a in &opts {
+                for b in &opts {
+                    stats.ops_checked += 1;
+                    let got = a.clone().combine(b.clone());
+                    if got != model_opt(a, b) {
+                        note("combine:option:table", format!("{a:?} + {b:?} = {got:?}"), &mut stats);
+                    }
+                    for c in &opts {
+                        let l = a.clone().combine(b.clone()).combine(c.clone());
+                        let r = a.clone().combine(b.clone().combine(c.clone()));
+                        if l != r {
+                            note("combine:option:associativity", format!("{a:?} {b:?} {c:?}"), &mut stats);
+                        }
+                    }
+                }
+                let id: Option<S> = Combine::identity();
+                if a.clone().combine(id.clone()) != *a || id.combine(a.clone()) != *a {
+                    note("combine:option:identity", format!("{a:?}"), &mut stats);
+                }
+                // one more level of Option
+                let aa: Option<Option<S>> = Some(a.clone());
+                let nn: Option<Option<S>> = None;
+                if aa.clone().combine(nn.clone()) != aa || nn.combine(aa.clone()) != aa {
+                    note("combine:option-option:identity", format!("{aa:?}"), &mut stats);
+                }
+            }
+            // a forest with an Option payload: random histories over 5 elements against sets of (members, payload)
+            let mut rng = Rng(req.get("seed").and_then(J::as_u64).unwrap_or(1));
+            let count = req.get("count").and_then(J::as_u64).unwrap_or(200);
+            for _ in 0..count {
+                let mut real: DisjointSet<usize, Option<S>> = DisjointSet::new();
+                let mut model: Vec<(BTreeSet<usize>, Option<S>)> = Vec::new();
+                let mut history: Vec<String> = Vec::new();
+                for step in 0..(1 + rng.below(len.max(1))) {
+                    let a = rng.below(universe);
+                    let b = rng.below(universe);
+                    let find = |m: &mut Vec<(BTreeSet<usize>, Option<S>)>, v: usize| -> usize {
+                        if let Some(i) = m.iter().position(|(s, _)| s.contains(&v)) {
+                            i
+                        } else {
+                            m.push(([v].into(), None));
+                            m.len() - 1
+                        }
+                    };
+                    match rng.below(4) {
+                        0 => {
+                            history.push(format!("union({a},{b})"));
+                            real.union(&a, &b);
+                            let (i, j) = (find(&mut model, a), find(&mut model, b));
+                            if i != j {
+                                let (sj, dj) = model[j].clone();
+                                let di = model[i].1.clone();
+                                model[i].0.extend(sj);
+                                model[i].1 = model_opt(&di, &dj);
+                                model.remove(j);
+                            }
+                        }
+                        1 => {
+                            let payload: Option<S> = Some([step as u32 + 1].into());
+                            history.push(format!("add_data({a},{payload:?})"));
+                            real.add_data(&a, payload.clone());
+                            let i = find(&mut model, a);
+                            let d = model[i].1.clone();
+                            model[i].1 = model_opt(&d, &payload);
+                        }
+                        2 => {
+                            history.push(format!("add_data({a},None)"));
+                            real.add_data(&a, None);
+                            let i = find(&mut model, a);
+                            let _ = i;
+                        }
+                        _ => {
+                            history.push(format!("find({a})"));
+                            let _ = real.find(&a);
+                            let _ = find(&mut model, a);
+                        }
+                    }
+                    stats.ops_checked += 1;
+                    let mut bad = None;
+                    for (members, data) in &model {
+                        for m in members {
+                            let got = real.get_data(m).cloned();
+                            let want = Some(data.clone());
+                            // a set that never received data may report no data at all
+                            let same = got == want || (got.is_none() && data.is_none()) || (got == Some(None) && data.is_none());
+                            if !same {
+                                bad = Some(format!("data of {m}: real {got:?} model {data:?}"));
+                            }
+                        }
+                    }
+                    if let Some(what) = bad {
+                        let e = stats
+                            .violations
+                            .entry("ds-option-payload:data".to_string())
+                            .or_insert_with(|| (0, json!({"history": history.clone(), "what": what})));
+                        e.0 += 1;
+                        break;
+                    }
+                }
+                stats.histories += 1;
+            }
+        }
         _ => return json!({"class": "harness_error", "msg": "unknown ds mode"}),
     }
     let samples: Vec<&String> = stats.distinct_partitions.iter().take(5).collect();
